@@ -606,6 +606,7 @@ func c18RawExec(c *core.Ctx, in c18Raw) {
 	data := unhex(in.Hex)
 	c.Distinct(core.Hash64(in.Parser, data), len(data) >= 3)
 	guardReset()
+	c.SetSub("raw", func() any { return in })
 	if pi := c18RawCall(in); pi != nil {
 		c.FailCase("parse|"+in.Parser+"|"+pi.Key(), fmt.Sprintf("%s on %x panics: %s", in.Parser, clip(data), pi.Msg), "raw", in)
 	} else if w := guardCheck(); w != "" {
